@@ -109,6 +109,12 @@ def main():
             caught = [p for p, x in r["results"].items() if x["exit"] == 1]
             odd = [p for p, x in r["results"].items() if x["exit"] not in (0, 1)]
             print("%-44s caught by: %-40s %s%s" % (n, ",".join(caught) or "-", ("inconclusive: " + ",".join(odd)) if odd else "", (" ERROR " + r["error"]) if r["error"] else ""), flush=True)
+            write_results([r])
+    write_results(results)
+    return 0
+
+
+def write_results(results):
     # merge with earlier results
     path = os.path.join(VERIF, "selftest.json")
     old = {}
@@ -118,7 +124,7 @@ def main():
         except Exception:  # noqa
             old = {}
     for r in results:
-        if r["name"] in old and set(old[r["name"]].get("results", {})) - set(r["results"]):
+        if r["name"] in old:
             merged = dict(old[r["name"]]["results"])
             merged.update(r["results"])
             r["results"] = merged
